@@ -161,6 +161,8 @@ const struct Flavour {
     {K_FOPEN, ANS_FAIL, EACCES},     {K_FOPEN, ANS_FAIL, ENOSPC},     {K_FOPEN, ANS_FAIL, EMFILE},     {K_FWRITE, ANS_SHORT, ENOSPC},
     {K_FWRITE, ANS_FAIL, EIO},       {K_FCLOSE, ANS_FAIL, EIO},       {K_FCLOSE, ANS_FAIL, ENOSPC},    {K_CWRITE, ANS_FAIL, ENOSPC},
     {K_CWRITE, ANS_SHORT, ENOSPC},   {K_CWRITE, ANS_FAIL, EIO},
+    // transient short counts (not refusals): success is allowed, but only with the complete file
+    {K_FWRITE, ANS_SHORT, EINTR},    {K_CWRITE, ANS_SHORT, EINTR},
 };
 
 bool injectable(int call) {
@@ -197,7 +199,7 @@ void case_c17(const GenParams &gp, CaseOut &out) {
     a.nth = pt.nth;
     a.ans = f->ans;
     a.err = f->err;
-    a.arg = f->ans == ANS_SHORT ? (long)rr.below(5000) : 0;
+    a.arg = f->ans == ANS_SHORT ? (long)rr.below(5000) + (f->err == EINTR ? 1 : 0) : 0;
     p.tasks[pt.task].ops[pt.op].env.push_back(a);
   };
   for (const Point &pt : pts) {
@@ -702,6 +704,7 @@ int cmd_run(const Args &a) {
   s.set("mremap_moves", stats().mremap_moves);
   s.set("mremap_inplace", stats().mremap_inplace);
   s.set("short_reads", stats().short_reads);
+  s.set("transient_short_writes", stats().transient_short_writes);
   s.set("leaked_blocks_after_faults", stats().leaks_blocks);
   s.set("leaked_mappings_after_faults", stats().leaks_maps);
   s.set("leaked_descriptors_after_faults", stats().leaks_fds);
